@@ -6,7 +6,7 @@ import obligations as OB
 V = os.path.dirname(os.path.dirname(os.path.abspath(__file__)))
 props = [json.loads(l) for l in open(os.path.join(V, "properties.jsonl"))]
 TEXT = {
- "C01": "is_legal (with and without prefilter), every private sub-generator (witness sink), the generator dispatchers (Verus) and the apply-and-test path are proved equal to the reference rules on all boards satisfying the invariant; knight/slider generators are complete only in the thorough tier (quick: <= 3 of that kind)",
+ "C01": "the legality decision without prefilter (every kind) and with the pin / check prefilter (quick: en passant, king moves, one pawn kind; every kind: thorough), every private sub-generator (witness sink; knight / sliders <= 3 men in quick, complete in thorough), the generator dispatchers (Verus), the public wrappers incl. the side dispatch (marker stubs, all boards) and the validate glue are proved equal to the reference rules on all boards satisfying the invariant",
  "C02": "Make for Move proved: Ok iff legal, result == ref_apply, Err leaves everything unchanged, no panic; validity preserved (spec lemma); UCI/SAN values resolve only to such moves; chains by Verus",
  "C03": "make_move_unchecked == ref_apply on all six fields for every kind and colour, any counter values, derived sets well-formed pointwise",
  "C04": "unmake restores every field, hash and all 16 sets for every pseudo-legal or null move; arbitrary depth by Verus lemmas over the one-step contract; chain.pop / walker call unmake only with the recorded entry",
@@ -14,16 +14,16 @@ TEXT = {
  "C06": "is_well_formed == geometry on all tuples, do_is_move_semilegal == reference pseudo-legality per kind and colour, generators as C01, partition lemma",
  "C07": "insufficient material, calc_outcome precedence, and has_legal_moves decomposed into dispatcher (Verus), early-exit of each sub-generator, legality filter, castling lemma",
  "C08": "the five trailing FEN fields round-trip over their whole value domain (exhaustive native evaluation of the real functions, ~38 M records) against an independent writer; the board field: all 13^8 contents of three constant ranks in quick (Kani, bounded), symbolic rank and all 13^64 boards in thorough; parse-format-parse on finite text grammars (quick) and on bounded symbolic strings (thorough)",
- "C09": "candidate generators exact, minimal disambiguation over every admissible candidate list, check marks (Verus), into_move soundness and ambiguity, canonical text round trip",
+ "C09": "candidate generators exact, minimal disambiguation over every admissible candidate list (from_move), check marks (Verus), into_move soundness and ambiguity for the pawn and castling forms, canonical text of every value; piece-move resolution against arbitrary candidate lists exceeds CBMC's memory here (thorough, undecided) and is covered in quick by a bounded native round trip on 14 positions",
  "C10": "UCI value <-> move round trip and kind inference on all boards, reader accepts iff a pseudo-legal move with those squares exists, text complete for the property's 20 481 strings",
  "C11": "try_from Ok iff reference validity on all 13^64 x ... raw boards, reported error holds, result normalised / well-formed / hashed, idempotence lemma",
  "C12": "BOUNDED: each parser on all UTF-8 strings up to a stated length (Kani) or on a stated finite text grammar (native evaluation): no panic, accepted values format back; 'any length' is not reached",
- "C13": "all chain functions extracted verbatim and verified by Verus for chains of any length against imported step contracts; equality bounded to lists of <= 3 moves",
+ "C13": "all chain functions extracted verbatim and verified by Verus for chains of any length against imported step contracts (C03 step obligations run with it); chain equality: bounded native family in quick, symbolic Kani form (lists <= 3) in thorough",
  "C14": "calc_outcome / set_auto_outcome / Outcome::passes verbatim against the precedence relation of the statement (Verus); board-level outcome by C07",
  "C15": "leapers, pawns, bishop tables (all squares x 2^64), between tables (all pairs) proved; rook: lemma + exhaustive native evaluation of all mask subsets + bounds in quick, 64 direct proofs in thorough",
  "C16": "attackers / is_attacked / is_check / checkers == reference walk on all well-formed boards, both colours",
  "C17": "Walker verbatim by Verus for any length and interleaving; the printed list of a chain without moves complete (Kani); bounded stand-ins by exhaustive native evaluation on six fixed games (all operation sequences <= 7, all list policies); Kani forms of those in thorough",
- "C18": "the reference rules commute with both mirrors (spec lemmas) and the implementation equals the reference for both colours (C01/C06/C07/C11/C16 obligations)",
+ "C18": "quick: attack and outcome rules commute with both mirrors (spec lemmas) and the implementation equals the reference in the white and the black instance of the colour-dependent obligations (pawn / king / castling generators, validator, step, attack queries, constants); thorough adds the validity and move-set mirror lemmas (11-55 min each)",
  "C19": "every unsafe site mapped to obligations that execute it under Kani's pointer/bounds/unreachable checks or prove the callee's precondition; the 256-move capacity (A-CAP) is an explicit assumption, not decided",
  "C20": "index/char/text conversions over full domains, bitboard operations against a pointwise set model for all 2^64 sets, named constants against geometry",
 }
